@@ -402,6 +402,42 @@ fn other_decoders(w: &World, rng: &mut Rng, frames: &[Frame], trace: &mut Trace,
         fuzz_one("namespace_id_text", junk.as_bytes(), |t| std::str::from_utf8(t).map_err(|e| e.to_string())
             .and_then(|s| s.parse::<iroh_docs::NamespaceId>().map(|_| ()).map_err(|e| e.to_string())), trace, sum);
     }
+    // text decoders and text that is not ASCII: tokens of every length 0..40 made of 1-, 2-, 3- and 4-byte characters (so that
+    // any byte offset a parser might cut at falls inside a character somewhere), joined by 0..4 colons, with the words a
+    // parser knows mixed in at every position - fed to every text parser of the crate
+    const CHARS: &[&str] = &["a", "Z", "7", "=", " ", "\u{e9}", "\u{df}", "\u{20ac}", "\u{fffd}", "\u{1d11e}", "\u{1f980}"];
+    const WORDS: &[&str] = &["prefix", "exact", "utf8", "hex", "00ff", "doc", ""];
+    for round in 0..160usize {
+        let parts = 1 + rng.below(5);
+        let mut toks: Vec<String> = vec![];
+        for _ in 0..parts {
+            if rng.chance(1, 3) {
+                toks.push((*rng.pick(WORDS)).to_string());
+            } else {
+                // a run of single-byte characters of every length 0..24 in turn, then wider ones: some character straddles
+                // each small byte offset in some round
+                let lead = (round + rng.below(3)) % 25;
+                let mut t: String = "a".repeat(lead);
+                for _ in 0..rng.below(12) {
+                    t.push_str(*rng.pick(CHARS));
+                }
+                toks.push(t);
+            }
+        }
+        let text = toks.join(":");
+        fuzz_one("filter", text.as_bytes(), |b| std::str::from_utf8(b).map_err(|e| e.to_string())
+            .and_then(|s| s.parse::<iroh_docs::store::FilterKind>().map_err(|e| e.to_string())), trace, sum);
+        fuzz_one("ticket", text.as_bytes(), |b| std::str::from_utf8(b).map_err(|e| e.to_string())
+            .and_then(|s| s.parse::<DocTicket>().map_err(|e| e.to_string())), trace, sum);
+        fuzz_one("author_id_text", text.as_bytes(), |t| std::str::from_utf8(t).map_err(|e| e.to_string())
+            .and_then(|s| s.parse::<iroh_docs::AuthorId>().map(|_| ()).map_err(|e| e.to_string())), trace, sum);
+        fuzz_one("namespace_id_text", text.as_bytes(), |t| std::str::from_utf8(t).map_err(|e| e.to_string())
+            .and_then(|s| s.parse::<iroh_docs::NamespaceId>().map(|_| ()).map_err(|e| e.to_string())), trace, sum);
+        fuzz_one("author_secret_text", text.as_bytes(), |t| std::str::from_utf8(t).map_err(|e| e.to_string())
+            .and_then(|s| s.parse::<iroh_docs::Author>().map(|_| ()).map_err(|e| e.to_string())), trace, sum);
+        fuzz_one("namespace_secret_text", text.as_bytes(), |t| std::str::from_utf8(t).map_err(|e| e.to_string())
+            .and_then(|s| s.parse::<iroh_docs::NamespaceSecret>().map(|_| ()).map_err(|e| e.to_string())), trace, sum);
+    }
     // filter strings
     for s in ["prefix:utf8:abc", "exact:hex:00ff", "prefix:hex:zz", "nope", "exact:utf8:", "exact::", ":::", "prefix:hex:0"] {
         for _ in 0..3 {
